@@ -53,6 +53,8 @@ def kind_value(kind, i, tab):
         return tab['decs4'][i] / 4
     if kind == 'N':
         return -tab['negs'][i]
+    if kind == 'Z':
+        return 0 if i % 2 == 0 else 0.0          # zero is a number: it is counted, averaged and may be the minimum / maximum
     return {'X': 'x', 'S': '12', 'T': True, 'F': False, 'E': '', 'H': '#41'}.get(kind)
 
 
@@ -189,7 +191,7 @@ def gen(run):
         run.traces_validated += n
         if not bad:
             run.judge({'in': {'blk': rec['blk']}, 'obs': f'{n} aggregate values equal the folds', 'kind': 'gen_block'}, True, part='gen_blocks',
-                      nontrivial=any(k in 'IDN' for k in rec['blk']) and any(k not in 'IDN' for k in rec['blk']))
+                      nontrivial=any(k in 'IDNZ' for k in rec['blk']) and any(k not in 'IDNZ' for k in rec['blk']))
             run.evaluations -= 1
         for (si, f, exp, got) in bad[:3]:
             form = formula_of(si, f)
